@@ -305,7 +305,8 @@ def heartbeat_loop(h):
 @oset("heartbeat._message_received", ["C08"], [M + "_message_received"])
 def message_received(h):
     if not h.symbolic:
-        return
+        from replay import native_readings as NR
+        return NR.heartbeat_message_received(h)
     w, sock, cfg, mgr, msg, matcher, match_calls = _manager(h)
     ev = h.attr(mgr, "_response_received")
     ev.flag = False
